@@ -17,6 +17,11 @@ CONSTANTS Table <- McTableSeqU
  SeqMsgs <- McSeqMsgsU
  SeqConfirms <- McSeqConfirmsU
  SeqMix <- McSeqMixU
+ RxOn = FALSE
+ Answering <- NoAnswering
+ RxMax = 0
+ RxBystander = FALSE
+ RxStallOut = FALSE
  Dev <- NoDev
 VIEW SeqView
 INVARIANTS TypeOK UniqueRows NodeAlive NoDeadlock AllocBounded SeqCacheWaiting SeqConfirmsWaiting SeqChainLinear
